@@ -122,6 +122,9 @@ func (s *Service) Handle(ctx context.Context, conn net.Conn) error {
 
 	rcvLine := make(chan string)
 
+	// the mails received on this connection; they are reported with this connection's addresses
+	rcvMsg := make(chan Message)
+
 	// closed when this connection has been served, so that the goroutine below ends with it
 	done := make(chan struct{})
 	defer close(done)
@@ -132,7 +135,7 @@ func (s *Service) Handle(ctx context.Context, conn net.Conn) error {
 			select {
 			case <-done:
 				return
-			case message := <-s.receiveChan:
+			case message := <-rcvMsg:
 				header := []event.Option{}
 
 				for key, values := range message.Header {
@@ -172,6 +175,7 @@ func (s *Service) Handle(ctx context.Context, conn net.Conn) error {
 
 	//Create new smtp server connection
 	c := s.srv.newConn(conn, rcvLine)
+	c.msgs = rcvMsg
 	// Start server loop
 	c.serve()
 	return nil
